@@ -641,7 +641,7 @@ func c13Setup(c *core.Case) *c13World {
 			break
 		}
 	}
-	w.srcs = append(w.srcs, mk("unseen-a", ids.Group("af")[0], false), mk("unseen-b", ids.Group("ea")[1], false), mk("unseen-privacy", ids.Group("privacy")[0], false))
+	w.srcs = append(w.srcs, mk("unseen-a", ms.outsider(ids.Group("af"), 0), false), mk("unseen-b", ms.outsider(ids.Group("ea"), 1), false), mk("unseen-privacy", ids.Group("privacy")[0], false))
 	return w
 }
 
